@@ -15,9 +15,38 @@ def fluid_range(name):
     return CP.PropsSI("Ttriple", name) - 273.15, CP.PropsSI("Tcrit", name) - 273.15
 
 
+_ALL = None
+
+
+def all_fluids():
+    """Every fluid of the property library with at least 30 K of two-phase range above -60 C (cryogens excluded:
+    the cycle model works in degrees Celsius around ambient)."""
+    global _ALL
+    if _ALL is None:
+        import CoolProp.CoolProp as CP
+        out = []
+        for f in sorted(CP.get_global_param_string("FluidsList").split(",")):
+            try:
+                lo, hi = fluid_range(f)
+                lo = max(lo, CP.PropsSI("Tmin", f) - 273.15)
+            except Exception:  # noqa: BLE001
+                continue
+            if (hi - 8.0) - max(lo + 5.0, -60.0) >= 30.0:
+                out.append(f)
+        _ALL = out
+    return _ALL
+
+
 def gen_case(rng):
-    f = rng.choice(FLUIDS)
+    # half of the cases on the common refrigerants, half over the whole library (organic working fluids whose
+    # liquid enthalpy is negative on the library's reference state, siloxanes, alcohols, blends)
+    f = rng.choice(FLUIDS) if rng.random() < 0.5 else rng.choice(all_fluids())
     lo, hi = fluid_range(f)
+    try:
+        import CoolProp.CoolProp as CP
+        lo = max(lo, CP.PropsSI("Tmin", f) - 273.15)
+    except Exception:  # noqa: BLE001
+        pass
     lo = max(lo + 5.0, -60.0); hi = hi - 8.0
     te = round(rng.uniform(lo, hi - 15.0), 1)
     tc = round(rng.uniform(te + 8.0, hi), 1)
@@ -69,14 +98,16 @@ def oracle(case):
     H, S, T, Pp = list(hp.Hs), list(hp.Ss), list(hp.Ts), list(hp.Ps)
     Qc, Qe, W = float(hp.Q_cond), float(hp.Q_evap), float(hp.work)
     rel = 1e-9 * max(1.0, abs(Qc))
+    # the throttled fluid is already at / above the evaporator outlet enthalpy: nothing evaporates (q_evap clipped to 0)
+    no_evap = "throttle_outlet_not_below_evaporator_outlet" if H[3] >= H[0] - 1e-6 * abs(H[0]) else None
     if abs(Qc - (Qe + W)) > rel:
-        fails.append(("first_law", f"Q_cond {Qc} != Q_evap {Qe} + work {W}", None))
+        fails.append(("first_law", f"Q_cond {Qc} != Q_evap {Qe} + work {W}", no_evap))
     if not W > 0:
         fails.append(("positive_work", f"work {W}", None))
     if abs(Qc - case["Q"]) > rel:
         fails.append(("requested_duty", f"condenser duty {Qc}, requested {case['Q']}", None))
     if abs(hp.COP_h - (hp.COP_r + 1.0)) > 1e-9 * max(1.0, hp.COP_h):
-        fails.append(("cop_relation", f"COP_h {hp.COP_h} vs COP_r + 1 = {hp.COP_r + 1.0}", None))
+        fails.append(("cop_relation", f"COP_h {hp.COP_h} vs COP_r + 1 = {hp.COP_r + 1.0}", no_evap))
     if S[1] < S[0] - (1e-4 + 1e-8 * abs(S[0])):          # CoolProp's (p, s) -> h -> (h, p) round trip at eta = 1
         fails.append(("compression_entropy", f"s1 {S[1]} < s0 {S[0]}", None))
     if S[3] < S[2] - (1e-4 + 1e-8 * abs(S[2])):
@@ -97,8 +128,6 @@ def oracle(case):
         fails.append(("stream_sets_total", f"build_stream_collection raised {type(e).__name__}: {str(e)[:140]}", None))
         return fails, hp
     tot_c = sum(q for *_, q in cond); tot_e = sum(q for *_, q in evap)
-    # the throttled fluid is already at / above the evaporator outlet enthalpy: nothing evaporates (q_evap clipped to 0)
-    no_evap = "throttle_outlet_not_below_evaporator_outlet" if H[3] >= H[0] - 1e-6 * abs(H[0]) else None
     if cond and abs(tot_c - Qc) > 1e-6 * max(1.0, Qc):
         fails.append(("condenser_streams_carry_duty", f"hot streams carry {tot_c}, condenser duty {Qc} (order {case['order']})", None))
     if evap and abs(tot_e - Qe) > 1e-6 * max(1.0, Qe):
@@ -126,7 +155,7 @@ def oracle(case):
 
 
 def run(ctx: Ctx):
-    ctx.rule = ("SimpleHeatPumpCycle.solve without internal heat exchanger on random (refrigerant from 10 fluids, evaporating / condensing "
+    ctx.rule = ("SimpleHeatPumpCycle.solve without internal heat exchanger on random (refrigerant: half from 10 common fluids, half from every fluid of the property library with a two-phase range above -60 C, evaporating / condensing "
                 "temperature inside the two-phase range with lift >= 8 K, superheat 0-10, subcooling 0-8, compressor efficiency "
                 "0.5-1, duty 1-2500): first law, positive work, COP_h = COP_r + 1, entropy non-decreasing in compression and "
                 "throttling, isenthalpic throttling, saturation pressures (against CoolProp directly); the emitted stream sets carry "
